@@ -1048,6 +1048,12 @@ class LessParser(object):
             error_msg = "E: %s line: %d, Syntax Error, token: `%s`, `%s`" % \
                       (self.target, t.lineno, t.type, t.value)
             self.register.register(error_msg)
+        elif self.lex.last is not None:
+            # The input ended inside a construct (an unclosed block, string
+            # or parenthesis). An input without any token is an empty sheet.
+            error_msg = "E: %s line: %d, Syntax Error, unexpected end of input" % \
+                      (self.target, self.lex.lexer.lineno)
+            self.register.register(error_msg)
         while True:
             t = self.lex.token()
             if not t or t.value == '}':
